@@ -12,6 +12,10 @@ is run on.  The direct oracle decides the property from its statement: it
 computes the set of objects reachable by one expansion of the expression
 (declaratively: relational composition, union, reflexive-transitive closure —
 no visited set, no search order) and checks the clauses of the statement.
+
+A second generator (`gen_proxy_case`) covers the '+p:' clause systematically:
+what follows the last name step (nothing / steps that are not name steps) and
+where the target then lies relative to the named objects traversed.
 """
 import json
 import os
@@ -141,9 +145,12 @@ def render_expr(x):
 # set of states reachable from the set S by one expansion of `seq`.
 # --------------------------------------------------------------------------
 class Spec:
-    def __init__(self, tree, names, path=None, extra=(), m=False):
+    def __init__(self, tree, names, path=None, extra=(), m=False, track=None):
         """`extra`: further model trees (builtin models), numbered after `tree`;
-        `m`: the expression has the '+m:' flag (they are searched from a model root)"""
+        `m`: the expression has the '+m:' flag (they are searched from a model root);
+        `track`: a number — the third state component is the tuple of named objects
+        traversed so far (expansions with more than `track` of them are dropped; used by
+        the generator to choose reference names by the shape of the resulting '+p:' path)"""
         self.objs = []
         self.off = []  # per object: number of the root of its tree
         self.extra_roots = []
@@ -157,6 +164,7 @@ class Spec:
         self.m = m
         self.names = names
         self.given = path  # None: paths are not tracked (third component stays 0)
+        self.track = track
 
     # --- object graph -----------------------------------------------------
     def parent(self, o):
@@ -217,11 +225,20 @@ class Spec:
     def named(self, st, tgt):
         """account for a named object in the path"""
         o, n, j = st
+        if self.track is not None:
+            return (tgt, n, j + (tgt,)) if len(j) < self.track else None
         if self.given is None:
             return (tgt, n, 0)
-        if j < len(self.given) and self.given[j] == tgt:
-            return (tgt, n, j + 1)
+        if j[0] < len(self.given) and self.given[j[0]] == tgt:
+            return (tgt, n, (j[0] + 1, True))
         return None
+
+    def moved(self, j):
+        """a step that is not a name step was taken (with a given path the third component
+        is (entries accounted for, the last step taken was a name step))"""
+        if self.given is None or self.track is not None:
+            return j
+        return (j[0], False)
 
     def elem(self, e, first, S):
         k = e["k"]
@@ -231,7 +248,7 @@ class Spec:
                 src = self.nav_source(e, self.root(o) if first else o, n)
                 for t in self.cands(e, src, n):
                     if e["mode"] == "t":
-                        out.add((t, n, j))
+                        out.add((t, n, self.moved(j)))
                     elif e["mode"] == "f":
                         st = self.named((o, n, j), t)
                         if st:
@@ -247,7 +264,7 @@ class Spec:
                 while p is not None and not self.conforms(p, e["type"]):
                     p = self.parent(p)
                 if p is not None:
-                    out.add((p, n, j))
+                    out.add((p, n, self.moved(j)))
             return out
         if k == "dots":
             for (o, n, j) in S:
@@ -256,7 +273,7 @@ class Spec:
                     p = self.parent(p)
                     c -= 1
                 if p is not None:
-                    out.add((p, n, j))
+                    out.add((p, n, self.moved(j)))
             return out
         if k == "br":
             return self.seq(e["seq"], first, S)
@@ -323,12 +340,24 @@ class Spec:
             out |= self.path(p, first, S)
         return out
 
-    def targets(self, seq, start, cls):
+    def targets(self, seq, start, cls, last_named=None):
         """objects reachable by one expansion that consumed every name part,
-        (accounted for the whole path,) and conform to cls"""
-        S = self.seq(seq, True, {(start, len(self.names), 0)})
-        need = 0 if self.given is None else len(self.given)
-        return {o for (o, n, j) in S if n == 0 and j == need and self.conforms(o, cls)}
+        (accounted for the whole path; `last_named`: whose last step was / was not a name
+        step,) and conform to cls"""
+        if self.given is None:
+            S = self.seq(seq, True, {(start, len(self.names), 0)})
+            return {o for (o, n, j) in S if n == 0 and self.conforms(o, cls)}
+        S = self.seq(seq, True, {(start, len(self.names), (0, False))})
+        return {o for (o, n, j) in S if n == 0 and j[0] == len(self.given) and self.conforms(o, cls)
+                and (last_named is None or j[1] == last_named)}
+
+
+    def expansions(self, seq, start, cls):
+        """(tracking mode) {(target, named objects traversed)} over the expansions that
+        consumed every name part and end in an object conforming to cls"""
+        assert self.track is not None
+        S = self.seq(seq, True, {(start, len(self.names), ())})
+        return {(o, j) for (o, n, j) in S if n == 0 and self.conforms(o, cls)}
 
 
 def spec_of(case, ns, path=None):
@@ -458,11 +487,20 @@ def run_case(case):
 
     others = []  # builtin models ('+m:')
 
-    def found(res_obj, path, model):
+    def found(res_obj, path, model, proxy=None):
         allobjs = model_objects(model) + [o for m in others for o in model_objects(m)]
         num = {id(o): i for i, o in enumerate(allobjs)}
-        return {"res": "found", "obj": num.get(id(res_obj), -1),
-                "path": None if path is None else [num.get(id(p), -1) for p in path]}
+        d = {"res": "found", "obj": num.get(id(res_obj), -1),
+             "path": None if path is None else [num.get(id(p), -1) for p in path]}
+        if proxy is not None:
+            # the object that attribute access through the proxy denotes: the owner of the
+            # list object `proxy.a` (every Item / Model has its own list; None: no such attribute)
+            try:
+                lst = proxy.a
+                d["fwd"] = next((i for i, o in enumerate(allobjs) if getattr(o, "a", None) is lst), -1)
+            except AttributeError:
+                d["fwd"] = None
+        return d
 
     try:
         if mode == "find":
@@ -501,7 +539,7 @@ def run_case(case):
             elif isinstance(r, Postponed):
                 out["res"] = "postponed"
             elif isinstance(r, R.ReferenceProxy):
-                out.update(found(r._tx_obj, r._tx_path, model))
+                out.update(found(r._tx_obj, r._tx_path, model, proxy=r))
             else:
                 out.update(found(r, None, model))
         else:
@@ -524,7 +562,7 @@ def run_case(case):
             check_heap(case, model, mm, others)
             ref = objs[case["from"]].ref
             if isinstance(ref, R.ReferenceProxy):
-                out.update(found(ref._tx_obj, ref._tx_path, model))
+                out.update(found(ref._tx_obj, ref._tx_path, model, proxy=ref))
             else:
                 out.update(found(ref, None, model))
     except TextXError as e:
@@ -575,8 +613,10 @@ def gen_heap(rng, max_objs=14, deep=False):
     return root
 
 
-def add_refs(rng, root, ref_at=None, ref_text=None):
-    """cross references by object number (numbers include a Ref object, if any)"""
+def add_refs(rng, root, ref_at=None, ref_text=None, back=0.0, p_r=0.3, p_rs=0.2):
+    """cross references by object number (numbers include a Ref object, if any);
+    `back`: share of references that point to the object itself or one of its containers
+    (a step along such a reference returns to an object the evaluation came through)"""
     objs = heap_list(root)
     if ref_at is not None:
         objs[ref_at][0].setdefault("refs", []).append({"cls": "Ref", "text": ref_text})
@@ -584,13 +624,25 @@ def add_refs(rng, root, ref_at=None, ref_text=None):
     items = [i for i, (n, _) in enumerate(objs) if n["cls"] in ("A", "B", "C")]
     if not items:
         return
+
+    def pick(i):
+        if back and rng.chance(back):
+            up, q = [], i
+            while q is not None:
+                if objs[q][0]["cls"] in ("A", "B", "C"):
+                    up.append(q)
+                q = objs[q][1]
+            if up:
+                return rng.choice(up)
+        return rng.choice(items)
+
     for i, (n, _) in enumerate(objs):
         if n["cls"] == "Ref":
             continue
-        if rng.chance(0.3):
-            n["r"] = rng.choice(items)
-        if rng.chance(0.2):
-            n["rs"] = [rng.choice(items) for _ in range(rng.randint(1, 3))]
+        if rng.chance(p_r):
+            n["r"] = pick(i)
+        if rng.chance(p_rs):
+            n["rs"] = [pick(i) for _ in range(rng.randint(1, 3))]
 
 
 def gen_elem(rng, depth, allow_star=True):
@@ -785,6 +837,178 @@ def gen_case(rng, mode=None, focus=None):
 
 
 # --------------------------------------------------------------------------
+# '+p:' territory.  The statement's last clause ("the proxy's path lists the named
+# objects traversed, ending in the target") has these dimensions, all generated here:
+#   * the named prefix: 0..3 name steps (consuming / fixed-name), over containment
+#     and over references (so the named objects may repeat: reference cycles);
+#   * what follows the last name step: nothing, or 1..2 steps that are not name steps
+#     — parent(T), '(..)', '(...)', '(..)*', '~reference', '~containment', repetitions
+#     and bracketed alternatives of those — possibly followed by name steps again;
+#   * where the target lies relative to the named objects: the last of them, a fresh
+#     object, an object named earlier (first / middle position), an object carrying
+#     the same name as the last named one;  the reference name is chosen by that shape.
+# --------------------------------------------------------------------------
+class WildSpec(Spec):
+    """reachability with the reference name left open (a consuming step may move to any
+    named element): tells the generator which steps lead anywhere in a given model"""
+
+    def cands(self, e, src, n):
+        ts = self.attr(src, e["name"])
+        if e["mode"] == "t":
+            return ts
+        if e["mode"] == "f":
+            return [t for t in ts if self.name_of(t) == e["fixed"]]
+        return [t for t in ts if self.name_of(t) is not None]
+
+    def named(self, st, tgt):
+        return (tgt, 0, 0)
+
+
+def gen_proxy_seq(rng, allow_bare=True, root=None, frm=0):
+    """`root`, `frm`: the model and start object; steps are (mostly) chosen such that
+    they lead somewhere in it"""
+    wild = WildSpec(root, []) if root is not None else None
+
+    def front(lead, elems):
+        if wild is None or (lead is None and not elems):
+            return True
+        return wild.path({"lead": lead, "elems": elems}, True, {(frm, 0, 0)})
+
+    def name_step(lead, elems):
+        for attempt in range(5):
+            mode = rng.weighted([("c", 85), ("f", 15)])
+            e = {"k": "nav", "mode": mode, "name": rng.weighted([("a", 6), ("b", 3), ("s", 1), ("r", 2), ("rs", 2)])}
+            if mode == "f":
+                e["fixed"] = rng.choice(NAMES)
+            if attempt == 0 and rng.chance(0.15):
+                break  # a step chosen blindly
+            if front(lead, elems + [e]):
+                break
+        return e
+
+    def up(n):
+        return {"k": "br", "seq": [{"lead": n, "elems": []}]}
+
+    def other_kind(depth):
+        k = rng.weighted([("parent", 5), ("up", 4), ("ref", 4), ("down", 2), ("upstar", 2), ("refstar", 1),
+                          ("alt", 2 if depth == 0 else 0)])
+        if k == "parent":
+            return {"k": "parent", "type": rng.weighted([("Item", 4), ("Named", 3), ("A", 2), ("B", 2), ("C", 1), ("Model", 1)])}
+        if k == "up":
+            return up(rng.weighted([(2, 7), (3, 3)]))
+        if k == "ref":
+            return {"k": "nav", "mode": "t", "name": rng.choice(["r", "rs"])}
+        if k == "down":
+            return {"k": "nav", "mode": "t", "name": rng.weighted([("a", 5), ("b", 3), ("s", 1)])}
+        if k == "upstar":
+            return {"k": "star", "e": up(2)}
+        if k == "refstar":
+            return {"k": "star", "e": {"k": "nav", "mode": "t", "name": rng.choice(["r", "rs"])}}
+        return {"k": "br", "seq": [{"lead": None, "elems": [other_kind(1)]} for _ in range(2)]}
+
+    def other_step(lead, elems):
+        for attempt in range(4):
+            e = other_kind(0)
+            if (attempt == 0 and rng.chance(0.15)) or front(lead, elems + [e]):
+                break
+        return e
+
+    def extend(lead, elems, plan):
+        for kind in plan:
+            elems.append(name_step(lead, elems) if kind == "n" else other_step(lead, elems))
+        return elems
+
+    shape = rng.weighted([("ret", 14), ("mid", 2), ("names", 2), ("bare", 2 if allow_bare else 0)])
+    lead = rng.weighted([(None, 15), ("^", 2), (2, 2), (1, 1)])
+    if shape == "ret":
+        plan = "n" * rng.weighted([(1, 3), (2, 5), (3, 2)]) + "o" * rng.weighted([(1, 7), (2, 3)])
+    elif shape == "mid":
+        plan = "n" * rng.randint(1, 2) + "on" + ("o" if rng.chance(0.3) else "")
+    elif shape == "names":
+        plan = "n" * rng.randint(1, 3)
+    else:
+        lead = rng.weighted([(None, 2), ("^", 1), (2, 3), (3, 1), (1, 1)])
+        plan = "o" * rng.randint(0 if lead is not None else 1, 2)
+    seq = [{"lead": lead, "elems": extend(lead, [], plan)}]
+    if rng.chance(0.2):
+        seq.insert(rng.below(2), gen_path(rng, 1))
+    return seq
+
+
+def path_shape(sp, t, path):
+    """how the target relates to the named objects traversed"""
+    if not path:
+        return "empty"
+    if path[-1] != t:
+        if t in path:
+            return "back"
+        if sp.name_of(path[-1]) == sp.name_of(t):
+            return "twin"
+        return "fresh"
+    return "dup" if len(set(path)) < len(path) else "plain"
+
+
+SHAPE_WEIGHTS = [("back", 8), ("twin", 3), ("dup", 3), ("fresh", 4), ("empty", 2), ("plain", 2)]
+
+
+def gen_proxy_case(rng, mode=None):
+    mode = mode or rng.weighted([("find", 14), ("grammar", 5), ("reg", 1)])
+    root = gen_heap(rng, deep=rng.chance(0.6))
+    flags = rng.weighted([("p", 9), ("", 1)])
+    split = rng.weighted([(".", 6), ("/", 2), ("::", 2)])
+    n0 = len(heap_list(root))
+    at = 0
+    if n0 > 1 and rng.chance(0.6):
+        at = 1 + rng.below(n0 - 1)
+    if mode == "find":
+        add_refs(rng, root, back=0.5, p_r=0.5, p_rs=0.3)
+        frm = at
+    else:
+        add_refs(rng, root, ref_at=at, ref_text="?", back=0.5, p_r=0.5, p_rs=0.3)
+        frm = next(i for i, (n, _) in enumerate(heap_list(root)) if n["cls"] == "Ref")
+    names = all_names() + ([[]] if mode == "find" else [])
+    sp0 = Spec(root, [])
+    want = rng.chance(0.9)
+    # the shape of the path this case is to exhibit (a grammar reference cannot have an empty name)
+    target = rng.weighted([(k, w) for k, w in SHAPE_WEIGHTS if mode == "find" or k != "empty"])
+    fallback = None
+    for attempt in range(8):
+        seq = gen_proxy_seq(rng, allow_bare=(mode == "find"), root=root, frm=frm)
+        cls = rng.weighted([(None, 4), ("Item", 4), ("Named", 2), ("A", 1), ("B", 1)])
+        if mode != "find" and cls is None:
+            cls = "Item"
+        ns = rng.choice(names)
+        if not want:
+            break
+        by_shape = {}
+        for c in rng.shuffle(names):
+            exps = Spec(root, c, track=len(c) + 3).expansions(seq, frm, cls)
+            for shp in {path_shape(sp0, t, p) for t, p in exps}:
+                by_shape.setdefault(shp, []).append(c)
+        if by_shape and fallback is None:
+            fallback = (seq, cls, by_shape)
+        if target in by_shape:
+            break
+    else:
+        if fallback is not None:
+            seq, cls, by_shape = fallback
+            target = rng.weighted([(k, w) for k, w in SHAPE_WEIGHTS if k in by_shape])
+    if want and fallback is not None:
+        good = sorted(by_shape[target], key=lambda c: -len(c))
+        ns = good[rng.below(min(len(good), 4))]
+    text = split.join(ns)
+    if ns and rng.chance(0.1):  # empty parts are dropped
+        text = split + text.replace(split, split + split, 1)
+    case = {"mode": mode, "heap": root, "expr": {"flags": flags, "seq": seq}, "from": frm,
+            "name": text, "split": split, "cls": cls}
+    if mode != "find":
+        heap_list(root)[frm][0]["text"] = text
+    elif rng.chance(0.2):
+        case["as_list"] = split_name(text, split)
+    return case
+
+
+# --------------------------------------------------------------------------
 # the property, decided on an observation
 # --------------------------------------------------------------------------
 def check_property(case, obs):
@@ -818,10 +1042,15 @@ def check_property(case, obs):
             return "no proxy path although '+p:' is given"
         if path[-1] != t:
             return f"proxy path {path} does not end in the target {t}"
+        # the path is the list of named objects of an expansion reaching the target (it ends in
+        # the target already), or that list extended by the target where the expansion's last
+        # step is not a name step
         ok = t in spec_of(case, ns, path).targets(seq, frm, cls) or \
-            t in spec_of(case, ns, path[:-1]).targets(seq, frm, cls)
+            t in spec_of(case, ns, path[:-1]).targets(seq, frm, cls, last_named=False)
         if not ok:
             return f"proxy path {path} is not the list of named objects of an expansion reaching {t}"
+        if obs.get("fwd") is not None and obs["fwd"] != t:
+            return f"attribute access through the proxy reaches object {obs['fwd']}, not the target {t}"
     elif obs.get("path") is not None:
         return "proxy returned without '+p:'"
     return None
@@ -1012,7 +1241,12 @@ class Prop(Check):
     RULE = ("generated RREL expressions (navigation, '~', fixed-name '~', '.', '..', '^', parent(T), '*', brackets, ',', "
             "with and without '+p:') x generated models (<= 15 nested named/unnamed objects of 3 classes, name collisions, "
             "single/list cross references with cycles) x reference names of 1..3 parts, through rrel.find, grammar-attached "
-            "RREL and registered RREL strings; non-trivial = the reference resolves")
+            "RREL and registered RREL strings; plus 15 % '+p:'-focused cases: a prefix of 0..3 name steps over containment and "
+            "references (back references to containers: the named objects may repeat), followed by 0..2 steps that are not name "
+            "steps (parent(T), '(..)', '(...)', '(..)*', '~ref', '~child', alternatives / repetitions of those), the reference "
+            "name chosen by where the target lies relative to the named objects (the last one / a fresh object / one named earlier / "
+            "a same-named other object / no named object at all); observed: outcome, target, _tx_path, and the object that attribute "
+            "access through the proxy reaches; non-trivial = the reference resolves")
     MODELLED = ("hand-modelled: textx/scoping/rrel.py get_next_matches of RRELBase/Navigation/Parent/Dots/Brackets/Sequence/"
                 "ZeroOrMore/Path, the visited set of find_object_with_path, find / ReferenceProxy path, the '+m:' start list, "
                 "Postponed, name splitting (Rrel.eval in CPS with the visited set threaded, Rrel.find, Rrel.proxyPath, "
@@ -1028,6 +1262,7 @@ class Prop(Check):
         "C11_terminates / C11_resolves: the object graph is finite (FinHeap); C11_resolves: no attribute is unresolved",
     ]
     FUEL = 1000000
+    PROXY_SHARE = 0.15  # gen_proxy_case cases per general case
 
     def gen(self, rng, n, tier):
         k = produced = 0
@@ -1044,6 +1279,9 @@ class Prop(Check):
                     c.pop("as_list", None)
                     yield c
                     produced += 1
+        # '+p:' territory (appended, so that the general cases of a seed stay what they were)
+        for k in range(int(n * self.PROXY_SHARE)):
+            yield gen_proxy_case(rng.fork("p" + str(k)))
 
     def impl(self, case):
         return run_case(case)
@@ -1096,7 +1334,9 @@ class Prop(Check):
                 "builtin_models": [render_body(t, 0) for t in case.get("extra") or []],
                 "unresolved": case.get("unres") or [],
                 "from": case["from"], "name": case["name"], "cls": case.get("cls"),
-                "impl": {k: obs.get(k) for k in ("res", "obj", "path", "type")}}
+                "impl": {k: obs.get(k) for k in ("res", "obj", "path", "fwd", "type")}}
 
     def extra_search(self, rng, tier, broken):
-        return [gen_case(rng.fork("x" + str(k))) for k in range(800 if tier == "quick" else 20000)]
+        n = 800 if tier == "quick" else 20000
+        return [gen_case(rng.fork("x" + str(k))) for k in range(n)] + \
+            [gen_proxy_case(rng.fork("xp" + str(k))) for k in range(int(n * self.PROXY_SHARE))]
